@@ -10,6 +10,7 @@ OL_INTERRUPT: _ol_reserved_name = "__ol_interrupt_{}"
 OL_WRAPPED_ITER: _ol_reserved_name = "__ol_it_{}"
 OL_ITER_WRAPPER: _ol_reserved_name = "__ol_iter_wrapper"  # don't need format here
 OL_FOR_TMP: _ol_reserved_name = "__ol_for_{}"
+OL_WHILE_TMP: _ol_reserved_name = "__ol_while_{}"
 OL_ASSIGN_TMP: _ol_reserved_name = "__ol_assign_{}"
 OL_AUGASSIGN_TMP: _ol_reserved_name = "__ol_augass_{}"
 OL_AUGASSIGN_SLICE_TMP: _ol_reserved_name = "__ol_sllice_{}"
@@ -18,6 +19,8 @@ OL_RETURN: _ol_reserved_name = "__ol_ret_{}"
 OL_NONLOCAL_DICT: _ol_reserved_name = "__ol_nonlocal_{}"
 OL_CLASS_DICT: _ol_reserved_name = "__ol_classnsp_{}"
 OL_CLASS_LOADER: _ol_reserved_name = "__ol_loader_{}"
+OL_CLASS_MEMBER_KEY: _ol_reserved_name = "__ol_key_{}"
+OL_CLASS_MEMBER_VALUE: _ol_reserved_name = "__ol_value_{}"
 OL_IMPORT_TMP: _ol_reserved_name = "__ol_mod_{}"
 
 
